@@ -19,7 +19,8 @@ RULE = ("Engine B: states = prefixes of line lists / paragraph sequences generat
         "paragraph appended; traces = complete line lists run through format+parse (three API levels) and complete "
         "documents built, dumped, re-parsed and re-dumped.  Non-trivial = in-domain line lists of >= 2 lines with an "
         "empty line, a line starting with a blank or a dot-like line after the first; documents with >= 2 paragraphs "
-        "mixing Files and License paragraphs or carrying a licence text with empty/indented/dot-like lines")
+        "mixing Files and License paragraphs or carrying a licence text with empty/indented/dot-like lines; codec sweep: "
+        "one state / transition / trace per line list built around one swept character")
 BUDGET = {"quick": 240, "thorough": 3000}
 
 FORMAT = "https://www.debian.org/doc/packaging-manuals/copyright-format/1.0/"
@@ -27,6 +28,9 @@ FORMAT = "https://www.debian.org/doc/packaging-manuals/copyright-format/1.0/"
 
 def bounds(tier):
     return {"codec_pool": 10, "codec_len": "0..%d" % _codec_n(tier),
+            "codec_sweep": "one character at a time: c = each of %d characters (printable ASCII U+0020..U+007E, %d "
+                           "non-ASCII) in the line lists %r, lists outside the codec domain left out"
+                           % (len(sweep_chars()), len(SWEEP_NON_ASCII), [[l.replace("%", "<c>") for l in t] for t in SWEEP_LISTS]),
             "doc_pool": "30 Files paragraphs (3 pattern lists x 2 copyrights x 5 licences, one whose text starts with an empty line) + 5 stand-alone licences",
             "doc_sequences": "0..3 paragraphs",
             "doc_headers": ("24 header variants (Upstream-Name, Source, Upstream-Contact 0/1/2 entries, License) x "
@@ -39,6 +43,9 @@ def assumptions():
             "lone '.' or consists of white space only (empty lines are allowed: they are what ' .' encodes); lists "
             "outside that domain are still executed and only classified",
             "[''] and [] denote the same (empty) text",
+            "codec sweep: printable characters only; [' '] and ['x', ' '] (white-space-only line) and ['.'], ['x', '.'] "
+            "(lone '.') fail the statement's precondition and are left out; control characters and the characters "
+            "str.splitlines cuts at cannot be part of a *line* of a text that the codec itself splits with splitlines",
             "texts are '\\n'.join(lines) with a non-empty last line (a trailing newline cannot survive splitlines, "
             "and the statement speaks of lines)",
             "licence synopsis, single-line header values and the first line of a copyright text carry no leading or "
@@ -91,6 +98,43 @@ def doc_pools(seed):
     return pool, headers
 
 
+# ------------------------------------------------------------------------------------------------ codec sweep
+
+SWEEP_NON_ASCII = ["é", "ß", "Ω", "я", "中", "ç", "ñ", "ø", "ж", "ü", "λ", "√"]
+SWEEP_LISTS = [["x%y"], ["", "x%"], ["%"], ["x", "%"], ["x", "%y"]]
+SWEEP_CHUNK = 27
+
+
+def sweep_chars():
+    return [chr(cp) for cp in range(0x20, 0x7F)] + SWEEP_NON_ASCII
+
+
+def sweep_lists(c):
+    """-> the in-domain line lists for one swept character"""
+    return [x for x in ([l.replace("%", c) for l in t] for t in SWEEP_LISTS) if in_domain(x)]
+
+
+def _codec_sweep_unit(part, u):
+    first = None
+    for c in u["chars"]:
+        for lines in sweep_lists(c):
+            case = {"part": "codec", "lines": lines}
+            first = first or case
+            bad, cls = run_codec_case(case)
+            part.states += 1
+            part.transitions += 1
+            part.traces += 1
+            part.evaluations += 1
+            part.outcomes["codec-sweep:" + cls] += 1
+            if _codec_nontrivial(lines):
+                part.nontrivial += 1
+            for sig, e, o in bad:
+                part.violation(sig, case, e, o, rank=100)
+    part.max_depth = 2
+    part.sample(first)
+    return part
+
+
 # ------------------------------------------------------------------------------------------------ units
 
 def units(tier, seed):
@@ -101,6 +145,9 @@ def units(tier, seed):
     split = 1 if tier == "quick" else 2
     for pre in itertools.product(range(len(pool)), repeat=split):
         out.append({"part": "codec", "pool": pool, "prefix": list(pre), "n": n})  # lengths 2..n with this prefix
+    sc = sweep_chars()
+    for i in range(0, len(sc), SWEEP_CHUNK):
+        out.append({"part": "codec-sweep", "chars": sc[i:i + SWEEP_CHUNK]})
     dpool, headers = doc_pools(seed)
     out.append({"part": "doc", "pool": dpool, "headers": headers, "hidx": list(range(len(headers))), "first": None})
     hsel = [0, len(headers) - 1] if tier == "quick" else list(range(len(headers)))
@@ -111,6 +158,8 @@ def units(tier, seed):
 
 
 def unit_cost(u, tier):
+    if u["part"] == "codec-sweep":
+        return len(u["chars"]) * 5 * 12
     if u["part"] == "codec":
         if u["prefix"] is None:
             return 11 * 10
@@ -425,6 +474,8 @@ def run_unit(u, tier, seed):
     part = core.Part()
     if u["part"] == "codec":
         return _codec_unit(part, u)
+    if u["part"] == "codec-sweep":
+        return _codec_sweep_unit(part, u)
     return _doc_unit(part, u)
 
 
